@@ -64,8 +64,10 @@ def rejected_line(r):
     """(line, text) of the first unexplained event of a rejected trace"""
     if r.rejected:
         return int(r.rejected[0][0]), r.rejected[0][1]
-    m = re.search(r"/\\ l = (\d+)\s*$", r.out, re.M)
-    return (int(m.group(1)) if m else 1), ""
+    # invariant violation: the violating state is the last one generated (a validated trace is linear;
+    # TLC's printed error trace may be cut)
+    m = re.findall(r"/\\ l = (\d+)\s*$", r.out, re.M)
+    return max(int(m[-1]) - 1 if m else 1, r.generated - 1, 1), ""
 
 
 def judge_units(ctx, module, cfg, units, label, describe=None, on_accept=None, max_rounds=8, timeout=300, heap="6g",
